@@ -104,7 +104,7 @@ inline std::string jesc(const std::string& s) {
       case '\r': o += "\\r"; break;
       case '\t': o += "\\t"; break;
       default:
-        if (c < 0x20 || c >= 0x7f) { char b[8]; std::snprintf(b, sizeof b, "\\u%04x", c); o += b; }
+        if (c < 0x20 || c == 0x7f) { /* bytes >= 0x80 pass through (UTF-8) */ char b[8]; std::snprintf(b, sizeof b, "\\u%04x", c); o += b; }
         else o += (char)c;
     }
   }
